@@ -460,3 +460,112 @@ func (cw *codecRewriter) dropDeadBuffers(body *ast.BlockStmt) {
 	}
 	body.List = visit(body.List)
 }
+
+// Receive-until-closed loops (same overlay mechanism).
+//
+//	for ok := true; ok; { _, ok = <-ch }
+//
+// receives and discards until ch is closed: it is `for range ch {}` spelled so
+// that the block is not empty (what revive's empty-block finding asks for). The
+// drain rules look for the range form; the loop is rewritten into it.
+func (p *Prog) drainLoopOverlay() (map[string][]byte, []string) {
+	files := map[string]bool{}
+	for _, f := range p.Funcs {
+		if f.Body == nil {
+			continue
+		}
+		fn := p.Fset.Position(f.Body.Pos()).Filename
+		if inScopeFile(fn) && strings.HasPrefix(f.Pkg.PkgPath, modPath) {
+			files[fn] = true
+		}
+	}
+	overlay := map[string][]byte{}
+	var notes []string
+	for fn := range files {
+		src := p.Overlay[fn]
+		if src == nil {
+			b, err := os.ReadFile(fn)
+			if err != nil {
+				continue
+			}
+			src = b
+		}
+		if !bytes.Contains(src, []byte("= <-")) {
+			continue
+		}
+		fset := token.NewFileSet()
+		file, err := parser.ParseFile(fset, fn, src, parser.ParseComments)
+		if err != nil {
+			continue
+		}
+		n := 0
+		match := func(fs *ast.ForStmt) ast.Expr {
+			if fs.Post != nil || fs.Body == nil || len(fs.Body.List) != 1 {
+				return nil
+			}
+			init, ok := fs.Init.(*ast.AssignStmt)
+			if !ok || init.Tok != token.DEFINE || len(init.Lhs) != 1 || len(init.Rhs) != 1 {
+				return nil
+			}
+			okID, isID := init.Lhs[0].(*ast.Ident)
+			tv, isT := init.Rhs[0].(*ast.Ident)
+			cond, isC := fs.Cond.(*ast.Ident)
+			if !isID || !isT || !isC || tv.Name != "true" || cond.Name != okID.Name {
+				return nil
+			}
+			as, ok := fs.Body.List[0].(*ast.AssignStmt)
+			if !ok || as.Tok != token.ASSIGN || len(as.Lhs) != 2 || len(as.Rhs) != 1 || !isBlank(as.Lhs[0]) {
+				return nil
+			}
+			if id, ok := as.Lhs[1].(*ast.Ident); !ok || id.Name != okID.Name {
+				return nil
+			}
+			u, ok := as.Rhs[0].(*ast.UnaryExpr)
+			if !ok || u.Op != token.ARROW {
+				return nil
+			}
+			return u.X
+		}
+		var rewrite func(list []ast.Stmt)
+		rewrite = func(list []ast.Stmt) {
+			for i, s := range list {
+				if fs, ok := s.(*ast.ForStmt); ok {
+					if ch := match(fs); ch != nil {
+						list[i] = &ast.RangeStmt{For: fs.For, X: ch, Tok: token.ILLEGAL, Body: &ast.BlockStmt{Lbrace: fs.Body.Lbrace, Rbrace: fs.Body.Rbrace}}
+						n++
+						continue
+					}
+				}
+				ast.Inspect(s, func(x ast.Node) bool {
+					switch y := x.(type) {
+					case *ast.BlockStmt:
+						rewrite(y.List)
+						return false
+					case *ast.CaseClause:
+						rewrite(y.Body)
+						return false
+					case *ast.CommClause:
+						rewrite(y.Body)
+						return false
+					}
+					return true
+				})
+			}
+		}
+		for _, d := range file.Decls {
+			if fd, ok := d.(*ast.FuncDecl); ok && fd.Body != nil {
+				rewrite(fd.Body.List)
+			}
+		}
+		if n == 0 {
+			continue
+		}
+		var buf bytes.Buffer
+		if err := format.Node(&buf, fset, file); err != nil {
+			continue
+		}
+		overlay[fn] = buf.Bytes()
+		notes = append(notes, fmt.Sprintf("%d receive-until-closed loop(s) rewritten to `for range ch {}`", n))
+	}
+	return overlay, notes
+}
